@@ -419,7 +419,7 @@ pub fn check(rep: &Report) {
         rep.distinct(crate::rng::fnv64(src.as_bytes()));
         rep.count("scenarios", 1);
         rep.count(&format!("sources={}", sc.sources.len()), 1);
-        if i < 3 { rep.sample(json!({"select_scenario_source": src})); }
+        if rep.want_sample() { rep.sample(json!({"select_scenario_source": src})); }
         let mut scheds = sched_variants(&mut rng, n_sched);
         // (the worker-layer monitor needs every instruction boundary of the selecting process, which
         // is pid 0 on worker 0, to be a between-step point: quantum 1 there on every schedule)
